@@ -838,6 +838,13 @@ func runConn(c *mon.Case, r *mon.Run, p params) {
 		}
 		poll.Start(rc...)
 		synctest.Wait()
+		if p.seed%4 >= 2 {
+			// bytes that arrive as the deadline expires: the wire hands them over
+			// together with the timeout error, as io.Reader allows
+			c2s.SetTimeoutWithData(true)
+			s2c.SetTimeoutWithData(true)
+			r.Count("polling_phases_with_bytes_and_timeout_in_one_read", 1)
+		}
 		for round := 0; round < 4 && good; round++ {
 			upward := (int(p.seed>>3)+round)&1 == 0
 			if p.pairing == pairRefServer {
@@ -858,6 +865,7 @@ func runConn(c *mon.Case, r *mon.Run, p params) {
 			time.Sleep(time.Duration(150+prng.IntN(400)) * time.Millisecond)
 			half.SetCut(-1, memwire.CutSilence)
 			w.Wait()
+			time.Sleep(200 * time.Millisecond) // (bytes held till a deadline are through after one polling interval)
 			synctest.Wait()
 			if poll.Timeouts() > t0 {
 				r.Count("bursts_delivered_across_expired_read_deadlines", 1)
@@ -900,6 +908,9 @@ func runConn(c *mon.Case, r *mon.Run, p params) {
 			half.CloseWrite()
 		}
 		half.Pause(false)
+		if poll.On() {
+			time.Sleep(200 * time.Millisecond) // (see the polling phase)
+		}
 		synctest.Wait()
 		mu.Lock()
 		e := *ds
